@@ -28,12 +28,14 @@ package bcl
 //@   ensures is_error: result != nil
 //@   modifies nothing
 //@   ghost rterrs = g.rterrs + 1
+//@ ghost var warns int     // warnings issued by (*vm).warning
 //@ func (*vm).warning
 //@   requires position_known: vm.prog != nil && vm.prog.linePos != nil && 1 <= vm.pc && vm.pc <= len(vm.prog.positions)
 //@   assert [C08] position_of_the_warned_instruction: at format#1: $pos == vm.prog.positions[vm.pc-1]
 //@   assert [C04,C19,C08] warnings_go_straight_to_the_log_writer: at Fprintf#1: $w == vm.prog.log
 //@   assert [C04,C19,C08] warning_text_goes_to_the_log_writer: at Fprintf#2: $w == vm.prog.log
 //@   modifies nothing
+//@   ghost warns = g.warns + 1
 //
 //@ group C01,C02,C03,C04,C10,C06
 //@ func (*vm).run
@@ -91,6 +93,7 @@ package bcl
 //@   loop 1 step [C03] endblock_nested_stores_child: instr == opENDBLOCK && prev(vm.blockTos) > 1 ==> vm.blockTos == prev(vm.blockTos) - 1 && !prev(has(vm.blockStack[vm.blockTos-2].Fields, childkey(vm.blockStack[vm.blockTos-1]))) && has(vm.blockStack[vm.blockTos-1].Fields, prev(childkey(vm.blockStack[vm.blockTos-1]))) && vm.blockStack[vm.blockTos-1].Fields[prev(childkey(vm.blockStack[vm.blockTos-1]))] == prev(VBlockOf(vm.blockStack[vm.blockTos-1])) && len(vm.result) == prev(len(vm.result))
 //@   loop 1 step [C03] endblock_toplevel_appends_result: instr == opENDBLOCK && prev(vm.blockTos) == 1 ==> vm.blockTos == 0 && len(vm.result) == prev(len(vm.result)) + 1 && vm.result[len(vm.result)-1] == prev(vm.blockStack[0]) && (forall i int :: 0 <= i && i < prev(len(vm.result)) ==> vm.result[i] == prev(vm.result[i]))
 // bind (C04)
+//@   loop 1 step [C04] every_bind_after_the_first_warns: instr == opBIND && prev(vm.binding) != nil ==> g.warns == prev(g.warns) + 1
 //@   loop 1 step [C04] bind_selects: instr == opBIND ==> bindSelected(vm, blocks, selector, target)
 //@   loop 1 step [C04] bind_counts_blocks_of_type: instr == opBIND ==> len(blocks) == cntType(elems(vm.result), len(vm.result), blockType) && len(blocks) >= 1 && (forall j int :: 0 <= j && j < len(blocks) ==> blocks[j].Type == blockType)
 //@   loop 1 step [C04] bind_first_is_first_of_type: instr == opBIND ==> (exists i int :: 0 <= i && i < len(vm.result) && vm.result[i] == blocks[0] && (forall k int :: 0 <= k && k < i ==> vm.result[k].Type != blockType))
